@@ -15,7 +15,7 @@
 (*                                           is a violation for the owners      *)
 (*   "@@ DRIFT l=<event> ..."                divergence outside every property  *)
 (* The orchestrator (check.py) turns them into VIOLATION / KNOWN-FINDING lines. *)
-EXTENDS Props, Json, IOUtils
+EXTENDS StepProps, Json, IOUtils
 
 Rec == ndJsonDeserialize(IOEnv.TRACE)
 
@@ -83,20 +83,42 @@ GhostStep(g, prev, fns, cur, dr) ==
                         ELSE IF enters THEN [c |-> prev.t.buf.lines, w |-> FALSE] ELSE @,
                !.snapResized = IF enters THEN FALSE ELSE @]
 
+(* Who is to blame for a step that is not a step of (S)?  The properties that    *)
+(* own the executed functions - unless the divergence is confined to the          *)
+(* changed-line bookkeeping (C15) or the lazy-trim bookkeeping (C13) - plus the   *)
+(* properties that own the diverging component itself.                            *)
+Leaves(a, b) ==
+  LET d == DiffFields(a, b) IN
+  (d \ {"buf", "other"})
+    \cup (IF "buf" \in d THEN {"buf." \o f : f \in DiffFields(a.buf, b.buf)} ELSE {})
+    \cup (IF "other" \in d THEN {"other." \o f : f \in DiffFields(a.other, b.other)} ELSE {})
+FieldOwners(rest, alt, isResize) ==
+     (IF rest \cap {"tabs"} # {} THEN {"C18"} ELSE {})
+  \cup (IF rest \cap {"saved", "asaved"} # {} THEN {"C17"} ELSE {})
+  \cup (IF rest \cap {"other.lines", "other.cols", "other.rows", "other.lim"} # {} THEN {"C16"} ELSE {})
+  \cup (IF isResize /\ rest \cap {"top", "bottom"} # {} THEN {"C05", "C06"} ELSE {})
+  \cup (IF isResize /\ rest \cap {"buf.lines", "col", "row", "pw", "buf.cols", "buf.rows"} # {} THEN (IF alt THEN {"C16"} ELSE {"C10"}) ELSE {})
+  \cup (IF isResize /\ rest \cap {"cols", "rows"} # {} THEN {"C02"} ELSE {})
 Conformance(ll, what, r, fns, e, own) ==
   LET cur == e.st
       okT == r.vt.t = cur.t
       okP == r.vt.p = cur.p
       okCh == r.ch = e.ch
       okDr == ~e.consumed \/ r.dr = e.dr
+      leaves == IF okT THEN {} ELSE Leaves(r.vt.t, cur.t)
+      rest == leaves \ {"dirty", "buf.trim", "other.trim"}
+      blame ==    (IF "dirty" \in leaves \/ ~okCh THEN {"C15"} ELSE {})
+              \cup (IF leaves \cap {"buf.trim", "other.trim"} # {} THEN {"C13"} ELSE {})
+              \cup (IF rest # {} THEN own \cup FieldOwners(rest, cur.t.alt, what = "rs") ELSE {})
+              \cup (IF okP THEN {} ELSE {"C03", "C12"})
+              \cup (IF okDr /\ "buf.lines" \notin leaves THEN {} ELSE {"C06", "C13", "C14"})
       detail == " fns=" \o S(FnNames(fns))
-                \o (IF okT THEN "" ELSE " tdiff=" \o S(TermDiff(r.vt.t, cur.t)))
+                \o (IF okT THEN "" ELSE " tdiff=" \o S(leaves))
                 \o (IF okP THEN "" ELSE " parser: spec=" \o ToJson(r.vt.p) \o " impl=" \o ToJson(cur.p))
                 \o (IF okCh THEN "" ELSE " changes: spec=" \o S(r.ch) \o " impl=" \o S(e.ch))
                 \o (IF okDr THEN "" ELSE " drained: spec=" \o S(Len(r.dr)) \o " impl=" \o S(Len(e.dr)))
   IN IF okT /\ okP /\ okCh /\ okDr THEN <<>>
-     ELSE <<Msg("CONF", ll, "what=" \o what \o " owners=" \o S(own \cup (IF okP THEN {} ELSE {"C03"})
-                              \cup (IF okDr /\ (okT \/ "buf.lines" \notin TermDiff(r.vt.t, cur.t)) THEN {} ELSE {"C06", "C13", "C14"})) \o detail)>>
+     ELSE <<Msg("CONF", ll, "what=" \o what \o " owners=" \o S(blame) \o detail)>>
 
 Handle(ll, e) ==
   LET k == e.ev IN
@@ -114,7 +136,7 @@ Handle(ll, e) ==
     IF prev = Dead THEN [vts |-> vts, gh |-> gh, msgs |-> <<>>]
     ELSE
     LET fns == IF k = "rs" THEN <<>> ELSE Functions(prev.p, e.s)
-        own == IF k = "rs" THEN {"C10", "C16", "C17", "C18"} ELSE IF fns = <<>> THEN {"C20"} ELSE Owners(fns)
+        own == IF k = "rs" THEN {} ELSE IF fns = <<>> THEN {"C20"} ELSE Owners(fns)
         r == IF k = "fs" THEN FeedStr(prev, e.s)
              ELSE IF k = "rs" THEN ResizeCall(prev, e.cols, e.rows)
              ELSE [vt |-> FeedChars(prev, e.s), ch |-> <<>>, dr |-> <<>>]
@@ -125,6 +147,9 @@ Handle(ll, e) ==
         msgs |-> Conformance(ll, k, r, fns, e2, own)
                  \o StateMsgs(ll, prev, IF k = "rs" THEN <<>> ELSE fns, cur, e)
                  \o (IF k = "fc" THEN <<>> ELSE CallMsgs(ll, prev, cur, e))
+                 \o (IF k = "fs" /\ Len(fns) = 1 /\ StepProp(prev.t, fns[1]) # "none"
+                       /\ ~StepOK(prev.t, fns[1], cur.t, e.ch, IF e.consumed THEN Drained(e.dr) ELSE Unread)
+                     THEN <<Msg("FAIL " \o StepProp(prev.t, fns[1]), ll, "declarative step predicate fails for " \o ToJson(fns[1]))>> ELSE <<>>)
                  \o AltMsgs(ll, gh[s], g2, prev, fns, cur) \o AltEntryMsgs(ll, prev, fns, cur)
                  \o (IF k = "rs" /\ (e.cols # cur.t.cols \/ e.rows # cur.t.rows)
                      THEN <<Msg("FAIL C02", ll, "size() does not report the requested geometry")>> ELSE <<>>)]
